@@ -77,11 +77,14 @@ func (p *NumInfo) decimal(v *apd.Decimal) error {
 	}
 	_ = v.UnmarshalText(p.buf)
 	if p.mul != 0 {
-		_, _ = baseContext.Mul(v, v, mulToRat[p.mul])
-		cond, _ := baseContext.RoundToIntegralExact(v, v)
-		if cond.Inexact() {
-			return p.errorf("number cannot be represented as int")
-		}
+		// A number with a multiplier is an integer: the exact product is
+		// truncated towards zero, so 1.3Ki is trunc(1331.2) = 1331. The
+		// precision is chosen such that the product itself is exact.
+		c := baseContext
+		c.Precision = uint32(len(p.buf)) + 32
+		c.Rounding = apd.RoundDown
+		_, _ = c.Mul(v, v, mulToRat[p.mul])
+		_, _ = c.RoundToIntegralValue(v, v)
 	}
 	return nil
 }
